@@ -149,13 +149,14 @@ def beginRow (env : Env) (r : TRow) (ct : Ctl) (st : St) : M St := do
   let ap ← subStr site "AttributeError" ctrl "appearance"
   .ok { stack := ct :: st.stack, tableList := tableListAfterBegin st ap }
 
-/-- table-list bookkeeping (xls2json.py 1150-1185): `choices[list_name]` for the generated header row, and
+/-- table-list bookkeeping (xls2json.py 1150-1190): the generated header row, and
     `new_json_dict["control"]["appearance"] = "list-nolabel"` (item assignment: the cell must be a dict) -/
 def tableListStep (sh : Sheets) (r : TRow) (ln : Str) (filter : Bool) (st : St) : TL → M St
   | .off => .ok st
   | .pending => do
     rejectIf filter "table-list with choice_filter"
-    crashIf (!sh.choices.contains ln) "KeyError" site
+    -- 350c9c2: "The table-list appearance needs a choice list from the choices sheet" (was `choices[list_name]`)
+    rejectIf (!sh.choices.contains ln) "table-list without choice list"
     crashIf (!cellIsDict r "control") "TypeError" site
     .ok { st with tableList := .named ln }
   | .named l0 => do
@@ -182,10 +183,10 @@ def selectRow (env : Env) (sh : Sheets) (r : TRow) (params : Str) (sel ln : Str)
     "KeyError" "xls2json.py:add_choices_info_to_question"
   tableListStep sh r ln filter st st.tableList
 
-/-- 1203-1212 `for tag in osm_tags.get(list_name)` -/
+/-- 1203-1218 `tags = osm_tags.get(list_name)`; 6eb0107: "List name not in osm sheet" (was `for tag in None`) -/
 def osmRow (sh : Sheets) (st : St) : Option (List Str) → Option Str → M St
   | some tags, some ln => do
-    crashIf (!tags.contains ln) "TypeError" site
+    rejectIf (!tags.contains ln) "list not in osm sheet"
     .ok st
   | _, _ => .ok st
 
@@ -296,36 +297,25 @@ def shapeOk (r : TRow) : Bool :=
   subIsStr r "bind" "entities:saveto" && subIsStr r "control" "appearance"
 
 /-- complement of F13-select-one-external-unlisted (`choices[list_name]` in `add_choices_info_to_question`: no
-    choice_filter, not randomized / from file / from a repeat, list not on the choices sheet),
-    F44-table-list-unlisted-select (first select of a table-list group whose list is not on the choices sheet:
-    select from file / from a repeat) and F13-osm-unlisted (osm row naming a list absent from a present osm
-    sheet) -/
-def listsOk (env : Env) (sh : Sheets) (st : St) (r : TRow) : Bool :=
+    choice_filter, not randomized / from file / from a repeat, list not on the choices sheet).  (The table-list
+    header lookup and the osm tag loop were two more such lookups — F44, F13-osm-unlisted — until 350c9c2 / 6eb0107
+    turned them into located rejections.) -/
+def listsOk (env : Env) (sh : Sheets) (r : TRow) : Bool :=
   match lookup (k "type") r with
   | some (.str t) =>
     (match env.select t with
      | some (_, ln, _) =>
        let noFilter := (lookup (k "choice_filter") r).isNone
        let params := match lookup (k "parameters") r with | some (.str p) => p | _ => []
-       !(noFilter && !(env.randomize params || env.fileExt ln || env.hasRef ln) && !sh.choices.contains ln) &&
-       !(st.tableList == .pending && noFilter && !sh.choices.contains ln)
-     | none => true) &&
-    (match env.osm t, sh.osm with
-     | some (some ln), some tags => tags.contains ln
-     | _, _ => true)
+       !(noFilter && !(env.randomize params || env.fileExt ln || env.hasRef ln) && !sh.choices.contains ln)
+     | none => true)
   | _ => true
 
-def rowGuard (env : Env) (sh : Sheets) (st : St) (r : TRow) : Bool :=
+def rowGuard (env : Env) (sh : Sheets) (r : TRow) : Bool :=
   let r' := r.filter fun kv => kv.1 ≠ k "disabled"
-  cellIsStr r "disabled" && shapeOk r' && listsOk env sh st r'
+  cellIsStr r "disabled" && shapeOk r' && listsOk env sh r'
 
-/-- the guard along the run of the loop (each row is judged in the state the loop reaches it in) -/
-def sheetGuard (env : Env) (sh : Sheets) : List TRow → St → Bool
-  | [], _ => true
-  | r :: rs, st =>
-    rowGuard env sh st r &&
-    (match rowStep env sh r st with
-     | .ok st' => sheetGuard env sh rs st'
-     | .error _ => true)
+/-- the guard on a sheet: every row satisfies it (it no longer depends on the loop state) -/
+def sheetGuard (env : Env) (sh : Sheets) (rows : List TRow) : Bool := rows.all (rowGuard env sh)
 
 end Pyxv.RowLoop
